@@ -169,6 +169,34 @@ def c20_r2(ctx):
     w_ok = WH.has(whs, "numslots = 2 * len(entries)") and WH.has(whs, "slot = (hashval >> 8) % numslots") and \
         WH.has(whs, "slot = (slot + 1) % numslots") and WH.has(whs, "hashtable[slot] = (hashval, position)") and \
         any(isinstance(lp, ast.For) and WH.eq(lp.target, "(hashval, position)") and WH.eq(lp.iter, "entries") for lp in whs)
+    if not w_ok and WH.has(whs, "numslots = 2 * len(entries)"):
+        # the table may be filled in a private helper the reference tree does not have, and with the closed form of the same probe
+        # sequence: for i in range(numslots): slot = (first + i) % numslots; stop at the first free slot
+        from .. import inline
+        inv = inline.inventory()
+        bodies = [wh] + [g for g in hw.methods.values() if inv and g.qualname not in inv and g.name.startswith("_")
+                         and any(isinstance(x, ast.Attribute) and x.attr == g.name for x in ast.walk(wh.node))]
+        for g in bodies:
+            GA = pm.Alpha(g)
+            gs = pm.stmts_of(g.node)
+            outer = [lp for lp in gs if isinstance(lp, ast.For) and GA.eq(lp.target, "(hashval, position)")]
+            if not outer or not GA.has(gs, "hashtable[slot] = (hashval, position)"):
+                continue
+            incremental = GA.has(gs, "slot = (hashval >> 8) % numslots") and GA.has(gs, "slot = (slot + 1) % numslots")
+            closed_w = False
+            for lp in [x for x in gs if isinstance(x, ast.For) and isinstance(x.target, ast.Name)]:
+                if isinstance(lp.iter, ast.Call) and norm.call_name(lp.iter) in ("xrange", "range") and len(lp.iter.args) == 1 \
+                        and GA.eq(lp.iter.args[0], "numslots"):
+                    GA.eq(lp.target, "i")
+                    sp = [st for st in lp.body if isinstance(st, ast.Assign)
+                          and (GA.eq(st, "slot = (((hashval >> 8) % numslots) + i) % numslots", deep=True) or
+                               GA.eq(st, "slot = (((hashval >> 8) % (2 * len(entries))) + i) % (2 * len(entries))", deep=True))]
+                    brk = [st for st in lp.body if isinstance(st, ast.If) and any(isinstance(x, ast.Break) for x in st.body)
+                           and (GA.eq(st.test, "hashtable[slot] == null") or GA.eq(st.test, "null == hashtable[slot]"))]
+                    if len(sp) == 1 and lp.body[0] is sp[0] and brk:
+                        closed_w = True
+            if incremental or closed_w:
+                w_ok = True
     RK = pm.Alpha(rk)
     rks = pm.stmts_of(rk.node)
     r_ok = RK.has(rks, "tablestart, numslots = self.tables[self.hashfn(key) & 255]", deep=True) and \
@@ -511,6 +539,12 @@ def c20_r8(ctx):
             return ("const", v)
         if isinstance(e, ast.Attribute) and e.attr.startswith("get_"):
             return ("getter", e.attr)
+        if isinstance(e, ast.Call) and isinstance(e.func, ast.Name) and e.func.id == "getattr" and len(e.args) == 2:
+            a = ev.value(e.args[1], env)        # getattr(dbfile, "get_int")
+            if a[0] == "const" and isinstance(a[1], str) and a[1].startswith("get_"):
+                return ("getter", a[1])
+        if isinstance(e, ast.Name) and e.id not in env and e.id in f.module.assigns:
+            return ev.value(f.module.assigns[e.id], env)    # a module-level table
         if isinstance(e, ast.Call) and norm.canon(e.func) in ("struct.calcsize", "calcsize") and len(e.args) == 1:
             a = ev.value(e.args[0], env)
             if a[0] in ("tc", "const") and isinstance(a[1], str):
@@ -541,6 +575,12 @@ def c20_r8(ctx):
         return cases.OPAQUE(norm.canon(e))
 
     def decide(t, env, ev):
+        if isinstance(t, ast.Compare) and len(t.ops) == 1 and isinstance(t.ops[0], (ast.Is, ast.IsNot)):
+            l, r = ev.value(t.left, env), ev.value(t.comparators[0], env)
+            if r == ("const", None) and l[0] in ("const", "getter", "tc"):
+                res = (l[0] == "const" and l[1] is None)
+                return res if isinstance(t.ops[0], ast.Is) else not res
+            return None
         if isinstance(t, ast.Compare) and len(t.ops) == 1 and isinstance(t.ops[0], (ast.Eq, ast.NotEq, ast.In, ast.NotIn)):
             l, r = ev.value(t.left, env), ev.value(t.comparators[0], env)
             if isinstance(t.ops[0], (ast.In, ast.NotIn)):
